@@ -5,9 +5,11 @@
               enqueued since its idle check (channel or overflow non-empty)            [finding F7]
    pop_hit:   the convoy pops the overflow list (pc CPopOver) although the channel, which it polled
               empty one step earlier, has been refilled: the overflow task overtakes older channel
-              tasks                                                                   [finding F14] *)
+              tasks                  [finding F14; repaired in 0813a51: with the extracted constant
+              pop_overflow_rechecks_channel = true the window is closed and pop_hit is constantly false] *)
 From Coq Require Import List Arith Bool ZArith.
 From Dae Require Import C13_Spec C13_Model.
+From Dae.gen Require Import C13_Consts.
 Import ListNotations.
 
 Definition nonempty {A} (l : list A) : bool := match l with [] => false | _ => true end.
@@ -30,7 +32,7 @@ Definition pop_hit (s : state) (l : label) : bool :=
   | LConv q _ =>
       match nth_error (st_qs s) q with
       | Some Q => match q_pc Q with
-                  | CPopOver => nonempty (q_over Q) && nonempty (chan s (q_ch Q))
+                  | CPopOver => negb pop_overflow_rechecks_channel && nonempty (q_over Q) && nonempty (chan s (q_ch Q))
                   | _ => false
                   end
       | None => false
